@@ -110,6 +110,79 @@ theorem stale_cached_pack_must_not_count :
     (GC.packLooseV GC.Variant.current false [{ ids := [3], mtime := 60 }] s 200).1.packs.map (·.ids) = [[3], [1, 2]] := by
   decide
 
+/-! ### the roots while refs are being packed -/
+
+/-- What the source does when it enumerates the roots and when it packs refs (translator output): `find_reachable_objects`
+enumerates with `allkeys()`, which reads the loose tree BEFORE `packed-refs`; `read_ref` reads the loose file before
+`packed-refs`; and the recorded `pack_refs(all=True)` renames the new `packed-refs` into place before it unlinks a loose
+file. -/
+theorem source_reads_loose_refs_first :
+    Gen.GC.gcRootsViaAllkeys = true ∧ Gen.GC.allkeysReadsLooseFirst = true ∧ Gen.GC.readRefReadsLooseFirst = true ∧
+    GC.packsBeforeUnlink false (Gen.GC.packRefsProgram.map GC.RefAct.ofCode) = true := by
+  decide
+
+/-- For every ref that exists throughout (loose, packed or both at the start), every packer program that writes
+`packed-refs` before unlinking the loose file, and EVERY interleaving: if the loose tree is read (state `i`) no later than
+`packed-refs` (state `j`), the ref is in the union of the two views — it is a root of the reachability walk. -/
+theorem loose_before_packed_sees_every_persistent_ref (s : GC.RefAt) (hs : s.1 = true ∨ s.2 = true)
+    (prog : List GC.RefAct) (hp : GC.packsBeforeUnlink s.2 prog = true) (i j : Nat) (hij : i ≤ j)
+    (hj : j < (GC.refTrace s prog).length) : GC.rootSeen (GC.refTrace s prog) i j = true :=
+  GC.refTrace_inv prog s hs hp i j hij hj
+
+/-- Negation witness for the opposite read order (NOT the code): a loose-only ref; `packed-refs` is read first (state 0:
+not there yet), the packer writes `packed-refs` and unlinks the loose file, the loose tree is read last (state 2: gone).
+The ref existed throughout and is in neither view: its closure would be pruned.  Read loose-first it is seen in every
+pair of states. -/
+theorem packed_before_loose_misses_ref_counterexample :
+    let prog : List GC.RefAct := [.writePacked, .unlinkLoose]
+    GC.packsBeforeUnlink false prog = true ∧
+    GC.rootSeen (GC.refTrace (true, false) prog) 2 0 = false ∧
+    (∀ i, i < 3 → ∀ j, j < 3 → i ≤ j → GC.rootSeen (GC.refTrace (true, false) prog) i j = true) := by
+  decide
+
+/-! ### the grace period as configured -/
+
+/-- What the source does with `gc.pruneExpire` (translator output): the only keyword `get_prune_grace_period` answers itself
+means "everything may go"; an unset key gives at least two weeks; an unparsable value raises (no handler turns it into a
+grace period); the result is `max(0, now - timestamp)`; `porcelain.gc` and the CLI forward the configured value when no
+explicit one is given. -/
+theorem source_configured_grace_is_sound :
+    GC.tableSound Gen.GC.pruneExpireKeywords = true ∧ 1209600 ≤ Gen.GC.pruneExpireUnsetDefault ∧
+    Gen.GC.pruneExpireUnparsableRaises = true ∧ Gen.GC.pruneExpireGraceIsNowMinusTimestamp = true ∧
+    Gen.GC.porcelainGcForwardsConfiguredGrace = true ∧ Gen.GC.cliGcDefaultsToConfig = true := by
+  decide
+
+/-- For EVERY configured value: under the grace period the code derives from it, `garbage_collect` /
+`prune_unreachable_objects` remove no object that has a copy written after the instant the value denotes (`never`: no
+object at all — the code refuses to run rather than degrade to "no age check", which it only ever derives from a value
+meaning "everything may go"). -/
+theorem configured_prune_removes_nothing_younger_than_expiry (v : GC.ConfigValue) (now : Nat)
+    (G : GC.Id → List GC.Id) (roots : List GC.Id) (fuel : Nat) (s s' : GC.Store) (x : GC.Id) (prune : Bool) (g : Nat)
+    (hg : GC.graceOf Gen.GC.pruneExpireKeywords Gen.GC.pruneExpireUnsetDefault now v = .secs g)
+    (h : GC.apply GC.Variant.current G roots fuel (.gc prune (some g) now) s = some s')
+    (hx : s.has x = true) (hgone : s'.has x = false) :
+    ∃ e, GC.expiryOf now v = some e ∧ ∀ t ∈ s.mtimes x, t ≤ e := by
+  have hsound := GC.graceOf_respects_expiry Gen.GC.pruneExpireKeywords source_configured_grace_is_sound.1
+    Gen.GC.pruneExpireUnsetDefault now source_configured_grace_is_sound.2.1 v
+  rw [hg] at hsound
+  obtain ⟨e, he, hle⟩ := hsound
+  refine ⟨e, he, ?_⟩
+  obtain ⟨_, hold⟩ := only_old_unreachable_removed G roots fuel _ s s' h x hx hgone
+  rcases hold with ⟨gr, nw, hop, ho⟩ | ⟨gr, nw, hop, ho⟩
+  · cases hop
+  · cases hop
+    intro t ht
+    have := ho.2 t ht
+    omega
+
+/-- `never` is refused, not turned into "no age check"; a table that answered `never` (with any grace period, or with the
+API's None) would be rejected -/
+theorem never_is_not_no_grace :
+    GC.graceOf Gen.GC.pruneExpireKeywords Gen.GC.pruneExpireUnsetDefault 1000 (.keyword "never") = .refuse ∧
+    GC.tableSound [("now", some 0), ("never", none)] = false ∧ GC.tableSound [("never", some 0)] = false ∧
+    GC.expiryOf 1000 (.keyword "never") = some 0 := by
+  decide
+
 /-- Regression witness (code before the series: `get_object_mtime` = the loose file's mtime, else the first pack's):
 object 9 is unreachable, its loose copy is 7200 s old, its packed copy 1800 s; `gc(grace 3600)` removed it from the store
 altogether.  The repaired code keeps it. -/
